@@ -1074,7 +1074,19 @@ func discoverLenBoundedFields(c *Ctx) {
 				if !ok {
 					continue
 				}
-				mk, ok := st.Val.(*ssa.MakeSlice)
+				val := st.Val
+				// a helper that makes the table (makeSendTimes(lastTTL)): its only return is the make, its parameter is what this
+				// call passes
+				var viaCall *ssa.Call
+				if call, isCall := val.(*ssa.Call); isCall {
+					if g := call.Common().StaticCallee(); g != nil && core.InModule(g) && !call.Common().IsInvoke() && len(g.Blocks) == 1 {
+						if ret, isRet := g.Blocks[0].Instrs[len(g.Blocks[0].Instrs)-1].(*ssa.Return); isRet && len(ret.Results) == 1 {
+							val = ret.Results[0]
+							viaCall = call
+						}
+					}
+				}
+				mk, ok := val.(*ssa.MakeSlice)
 				if !ok {
 					continue
 				}
@@ -1087,6 +1099,23 @@ func discoverLenBoundedFields(c *Ctx) {
 					continue
 				}
 				x := stripWiden(bo.X)
+				if viaCall != nil {
+					pa, isParam := x.(*ssa.Parameter)
+					if !isParam {
+						continue
+					}
+					g := viaCall.Common().StaticCallee()
+					found := false
+					for k, q := range g.Params {
+						if q == pa && k < len(viaCall.Common().Args) {
+							x = stripWiden(c.P.Def(viaCall.Common().Args[k]))
+							found = true
+						}
+					}
+					if !found {
+						continue
+					}
+				}
 				// a constructor of a table type receives MaxTTL as a parameter: what its callers pass
 				if pa, isParam := x.(*ssa.Parameter); isParam {
 					x = stripWiden(c.P.DefX(pa))
